@@ -3,6 +3,8 @@
 From BW Require Import Context.
 From BWGen Require Import ExtTable.
 From BWP Require Import TextFacts Suffix_proofs Context_proofs.
+From BW Require Import Main.
+From BWP Require Import Main_proofs.
 
 (* Every registered suffix (incl. d.ts, go.mod, go.sum, go.work) selects its own grammar, whatever the stem (dots included) and directories. *)
 Theorem C16_registered_suffix : forall e g dir s,
@@ -53,3 +55,28 @@ Theorem C16_remap : forall table ext_map dir s k v g,
   grammar_of table ext_map (dir ++ s ++ C_DOT :: k) = Some g.
 Proof. exact remapped_suffix_resolves. Qed.
 Print Assumptions C16_remap.
+
+(* Through main: a run only starts when every -E value main sees maps onto a registered suffix. *)
+Theorem C16_mappings_checked : forall a p k v,
+  plan_of a = Ok p -> In (k, v) (pl_ext p) -> supported v = true.
+Proof. exact plan_ext_supported. Qed.
+Print Assumptions C16_mappings_checked.
+
+(* An -E mapping onto an unregistered suffix is rejected before any file is looked at. *)
+Theorem C16_unsupported_mapping_rejected : forall a s k v,
+  In s (effective (ca_ext_pre a) (ca_ext_post a)) -> parse_extension s = Some (k, v) -> supported v = false ->
+  exists e, plan_of a = Err e.
+Proof. exact unsupported_ext_rejected. Qed.
+Print Assumptions C16_unsupported_mapping_rejected.
+
+(* An -E value without = is a usage error. *)
+Theorem C16_mapping_needs_equals : forall a s,
+  In s (ca_ext_raw a) -> ~ In 61 s -> plan_of a = Err E_USAGE.
+Proof. exact ext_without_equals_is_usage_error. Qed.
+Print Assumptions C16_mapping_needs_equals.
+
+(* KEY=VALUE is split at the first = and both sides are trimmed. *)
+Theorem C16_mapping_trimmed : forall k v, ~ In 61 k ->
+  parse_extension (k ++ 61 :: v) = Some (trim k, trim v).
+Proof. exact parse_extension_trims. Qed.
+Print Assumptions C16_mapping_trimmed.
